@@ -172,9 +172,24 @@ def eval_moved(fam, f, K):
     e0, cell, skip = model_inter(f, K)
     if skip:
         return skip, []
-    lk = lib.to_lib(K)
-    lf = lib.to_lib(f)
+    # operands built from caller-owned Points that serve other, moved, lines / segments / half-lines before and afterwards
+    with lib.shared_points():
+        lk = lib.to_lib(K)
+        lf = lib.to_lib(f)
     r0 = lib.call(inter, lf, lk)
+    ok0, why0 = lib.matches(r0, e0)
+    if not ok0:
+        return 'moved|' + cell, [Viol('C02|moved|%s,%s|%s-with-operands-built-from-shared-points' % (f[0], K[0], why0), core.enc((f, K)), core.enc(e0), lib.describe(r0),
+                                      'operands built from Point objects that also served other (moved) lines, segments and half-lines')]
+    # the caller moves what it got back; freshly built equal operands answer as before
+    if hasattr(r0, 'move') and not isinstance(r0, lib.Raised) and f[0] != 'Plane':
+        lib.call(r0.move, lib.V((-2, 1, 5)))
+        got = lib.call(inter, lib.to_lib(f), lib.to_lib(K))
+        ok0, why0 = lib.matches(got, e0)
+        if not ok0:
+            return 'moved|' + cell, [Viol('C02|moved|%s,%s|%s-on-fresh-operands-after-an-earlier-result-was-moved' % (f[0], K[0], why0), core.enc((f, K)), core.enc(e0),
+                                          lib.describe(got), 'intersection(f, K); result moved by the caller; intersection of freshly built equal operands')]
+        lk = lib.to_lib(K)      # (the pinned library may hand out parts of K itself as the result: go on with a fresh K)
     lib.call(lambda: lk.area())
     viols = []
     t = (0, 0, 0)
